@@ -251,6 +251,45 @@ def closure_sorts_unconditionally(P, clo, depth):
     return False, "closure neither sorts nor iterates further"
 
 
+def _array_elements(b, a0, a1):
+    """when a0 / a1 are the two components of the element of a loop over a literal array of pairs: the (first, second)
+    operands of every element of that array; None otherwise"""
+    def elem(o):
+        rs = list(prov(b, o))
+        if len(rs) != 1:
+            return None
+        r = rs[0]
+        if r.kind == "call" and "array::IntoIter" in str(r.name) and str(r.name).endswith("::next") and \
+                r.fields[:2] == ("#Some", "0") and len(r.fields) == 3 and r.site is not None:
+            return r.site, r.fields[2]
+        return None
+    e0, e1 = elem(a0), elem(a1)
+    if not e0 or not e1 or e0[0] != e1[0]:
+        return None
+    # the iterator comes from into_iter(<literal array>)
+    arr = None
+    for cn, r in q.chains(b, b.term(e0[0])["args"][0]):
+        if r.kind == "agg" and r.name == "array" and r.site is not None:
+            arr = r
+        else:
+            return None
+    if arr is None:
+        return None
+    out = []
+    for st in b.blocks[arr.site]["stmts"]:
+        if st["k"] == "assign" and st["rv"]["k"] == "aggregate" and st["rv"].get("agg") == "array":
+            for f in st["rv"]["fields"]:
+                l = mir._operand_local(f["op"])
+                d = mir.single_def(b, l) if l is not None else None
+                if not d or d[0] != "assign" or d[4]["k"] != "aggregate" or d[4].get("agg") != "tuple":
+                    return None
+                fs = {x["name"]: x["op"] for x in d[4]["fields"]}
+                if e0[1] not in fs or e1[1] not in fs:
+                    return None
+                out.append((fs[e0[1]], fs[e1[1]]))
+    return out or None
+
+
 def source_precedence(P, chk):
     adt = P.adt(PD + "::PriceSource")
     order = [v["name"] for v in adt["variants"]]
@@ -296,6 +335,12 @@ def source_precedence(P, chk):
                 else:
                     fs.add("?")
             return "|".join(sorted(fs))
+        # for (a, b) in [(x, y), (y, x)] { insert_impl(.., a, b) }: one call per element of the literal array
+        elems = _array_elements(ip, t["args"][3], t["args"][4])
+        if elems is not None:
+            for e0, e1 in elems:
+                pairs.append((fld(e0), fld(e1)))
+            continue
         pairs.append((fld(t["args"][3]), fld(t["args"][4])))
     chk.require(sorted(pairs) == [("price_x", "price_y"), ("price_y", "price_x")], R_SRC, "insert_price|both directions", ip.loc(),
                 "insert_impl is called with %s" % pairs, "insert_impl(x, y) and insert_impl(y, x)")
